@@ -83,7 +83,10 @@ void LocalAuthMiddleware::setHeaderName(const QByteArray &name)
 
 bool LocalAuthMiddleware::process(Socket *socket)
 {
-    if (socket->headers().value(d->tokenHeader) != d->token) {
+    // Compare the bytes of the header value with the bytes of the token: comparing
+    // the QByteArray with the QString stops at an embedded NUL and would accept
+    // any value that merely begins with the token followed by a NUL
+    if (socket->headers().value(d->tokenHeader) != d->token.toUtf8()) {
         socket->writeError(Socket::Forbidden);
         return false;
     }
